@@ -132,8 +132,45 @@ func (es *ExpressionStatement) WriteTo(cw *CodeWriter) {
 	if es.Expression == nil {
 		return
 	}
-	es.Expression.WriteTo(cw)
+	if startsWithFunctionOrBrace(es.Expression) {
+		// at the start of a statement `function` begins a declaration and `{` a block
+		writeParenthesized(cw, es.Expression)
+	} else {
+		es.Expression.WriteTo(cw)
+	}
 	cw.WriteSemi()
+}
+
+// startsWithFunctionOrBrace reports whether the printed form of e begins with
+// the `function` keyword or with the `{` of an object literal.
+func startsWithFunctionOrBrace(e Expression) bool {
+	for e != nil {
+		switch n := e.(type) {
+		case *FunctionExpression, *ObjectLiteral:
+			return true
+		case *BinaryExpression:
+			if n.Left == nil || n.Left.Precedence() < n.Precedence() {
+				return false // the left operand is parenthesised
+			}
+			e = n.Left
+		case *PostfixExpression:
+			if n.Left == nil || n.Left.Precedence() < PrecedencePostfix {
+				return false
+			}
+			e = n.Left
+		case *CallExpression:
+			e = n.Function
+		case *MemberExpression:
+			e = n.Object
+		case *AssignmentExpression:
+			e = n.Left
+		case *CompoundAssignmentExpression:
+			e = n.Left
+		default:
+			return false
+		}
+	}
+	return false
 }
 
 type FunctionDeclaration struct {
